@@ -70,6 +70,7 @@ class Ctx:
         if not sat:
             self.out.discharged += 1
             return True
+        model = ex.small_model(p.pcs + [z3.Not(c)], model)
         saved = ex.inputs
         if extra_inputs:
             ex.inputs = dict(saved)
